@@ -319,6 +319,16 @@ def oracle_c06(c, out):
             return f"rejected {st['rej']} exceeds attempts not accepted {st['steps'] - st['acc']}"
         if st["acc"] > st["steps"]:
             return "accepted exceeds attempts"
+        # forcing evaluations actually performed: one per started step + one per attempt and evaluating stage (stages
+        # 1..s-1 with new_function_evaluation set); steps started = Jacobian evaluations minus, for the in-place LU
+        # variants, the re-evaluations after rejections
+        P = decode_ros_full(m["ptoks"])
+        n_eval = sum(1 for q in range(1, P["stages"]) if P["newf"][q])
+        bad_exit = 1 if s["status"] in ("NaNDetected", "InfDetected") else 0
+        started = st["j"] - ((st["steps"] - st["acc"] - bad_exit) if m["kind"] >= 2 else 0)
+        if st["f"] != started + st["steps"] * n_eval:
+            return (f"function_calls {st['f']} but {started} steps were started and {st['steps']} attempts with {n_eval} evaluating stage(s) each were made "
+                    f"= {started + st['steps'] * n_eval} forcing evaluations ({P['stages']}-stage set, new_function_evaluation {P['newf']})")
     else:
         if not (st["f"] == st["j"] == st["dec"] == st["sol"] == st["steps"]):
             return f"backward Euler counters disagree: {st}"
@@ -994,7 +1004,7 @@ def gen_norm_cases(r, Ls, n):
 # ---- Rosenbrock step-size controller: exact replay of the rule stated in C07 from the recorded error norms
 def decode_ros_ptoks(pt):
     st = int(pt[0]); nt = st * (st - 1) // 2
-    gamma = unhex(pt[1 + 2 * nt + 2 * st])
+    gamma = unhex(pt[1 + 2 * nt + 2 * st])      # then six new_function_evaluation flags, then the ten scalars
     tail = pt[-10:]
     order = unhex(tail[0])
     names = ("round_off", "factor_min", "factor_max", "rejection_factor_decrease", "safety_factor", "h_min", "h_max", "h_start")
